@@ -21,7 +21,11 @@ def search(chk, r, n, max_pto):
     # on (every piece is corrected the same way) and for a pure-Z beam at low Q2 (couplings ~ 1e-8)
     forced = [dict(which="ffns", process="EM", kind="F2", pto=1, proj="electron", nfff=3, fns="FFNS", tmc=2, p=[dict(x=0.1, Q2=20.0), dict(x=0.3, Q2=8.0)]),
               dict(which="pos", process="NC", kind="F2", pto=1, proj="neutrino", fns="ZM-VFNS", nfff=4, fl="total", tmc=0, p=[dict(x=0.1, Q2=2.0), dict(x=0.1, Q2=2.6)]),
-              dict(which="ffns", process="NC", kind="FL", pto=1, proj="positron", nfff=3, fns="FFNS", tmc=2, p=[dict(x=0.3, Q2=8.0)])]
+              dict(which="ffns", process="NC", kind="FL", pto=1, proj="positron", nfff=3, fns="FFNS", tmc=2, p=[dict(x=0.3, Q2=8.0)]),
+              # the coupling restriction and target-mass corrections are independent options
+              dict(which="pos", process="EM", kind="F2", pto=0, proj="electron", fns="ZM-VFNS", nfff=4, fl="total", tmc=1, p=[dict(x=0.3, Q2=4.0)]),
+              # charged current on a non-isoscalar nucleus, every heavyness (the u/d rows are where a missing rotation shows)
+              dict(which="ffns", process="CC", kind="F2", pto=1, proj="neutrino", nfff=3, fns="FFNS", tmc=0, p=[dict(x=0.1, Q2=20.0)], target="iron")]
     for i in range(n + len(forced)):
         process = r.choice(["EM", "NC", "CC"])
         kinds = cards.UNPOL if process == "CC" else r.choice([cards.UNPOL, ["g1"]])
@@ -34,7 +38,7 @@ def search(chk, r, n, max_pto):
         tmc = r.choice([0, 0, 0, 2, 1]) if pto <= 1 and kind != "g1" else 0
         f_ = forced[i] if i < len(forced) else {}
         if f_:
-            which, process, kind, pto, proj, tmc, p, target = f_["which"], f_["process"], f_["kind"], f_["pto"], f_["proj"], f_["tmc"], f_["p"], "proton"
+            which, process, kind, pto, proj, tmc, p, target = f_["which"], f_["process"], f_["kind"], f_["pto"], f_["proj"], f_["tmc"], f_["p"], f_.get("target", "proton")
         kw = dict(prDIS=process, ProjectileDIS=proj, TargetDIS=target, PolarizationDIS=float(r.choice([0.0, 0.4])))
         if tmc:
             kw["interpolation_xgrid"] = cards.default_grid(8, 0.02)
